@@ -68,6 +68,7 @@ fn main() {
         });
     }
 
+    vharness::extsat::cleanup_stale_scratch();
     if let Err(e) = vharness::oracle::self_test() {
         println!("INCONCLUSIVE oracle self-test failed: {}", e);
         std::process::exit(2);
@@ -81,10 +82,13 @@ fn main() {
         "C07" => drive(&checks::multi::Multi, &opts),
         "C08" => drive(&checks::dynamic::Dynamic { faults: false }, &opts),
         "C09" => drive(&checks::dynamic::Dynamic { faults: true }, &opts),
+        "C15" => drive(&checks::satobj::SatObj, &opts),
+        "C16" => drive(&checks::exchange::Exchange, &opts),
         _ => {
             eprintln!("unknown property {}", id);
             2
         }
     };
+    vharness::extsat::cleanup_scratch();
     std::process::exit(code);
 }
